@@ -108,7 +108,12 @@ static std::string run(const Case& k, vf::Ctx& ctx) {
     std::set<int> classes;
     for (size_t i = 0; i < k.cells.size(); i++) {
         const CellSpec& cs = k.cells[i];
-        auto type = ct::default_cell_type(2);
+        // the cell type objects live as long as the process and are re-parameterised from case to case (as a parameter screening through the
+        // bindings does): nothing the writer remembers about an earlier tissue may leak into this one
+        static std::vector<std::shared_ptr<cell_type_parameters>> type_pool;
+        if (type_pool.empty())
+            for (int q = 0; q < 8; q++) type_pool.push_back(ct::default_cell_type(2));
+        auto type = type_pool[i % type_pool.size()];
         type->global_type_id_ = cs.type_id;
         cell_ptr c;
         try {
@@ -141,6 +146,25 @@ static std::string run(const Case& k, vf::Ctx& ctx) {
     const std::string cell_path = tmpdir() + "/cells.vtk", face_path = tmpdir() + "/faces.vtk";
     std::remove(cell_path.c_str());
     std::remove(face_path.c_str());
+    // An earlier tissue written by the same process with the same cell type objects parameterised differently (what a parameter screening
+    // does) must leave no trace in this file: the case carries that bit of history itself, so that a replay reproduces it.
+    if (k.path == 1 && !cells.empty()) {
+        std::vector<short> real;
+        for (auto& c : cells) real.push_back(c->get_cell_type()->global_type_id_);
+        for (auto& c : cells) c->get_cell_type()->global_type_id_ = (short)((c->get_cell_type()->global_type_id_ + 5) % 13);
+        try {
+            std::vector<cell_ptr> first(1, ct::make_cell_of_class(0, mg::tetrahedron(), 999, cells[0]->get_cell_type()));
+            scope.add(first);
+            for (size_t i = 1; i < cells.size() && i < 8; i++) {
+                first.push_back(ct::make_cell_of_class(0, mg::tetrahedron(), 999, cells[i]->get_cell_type()));
+                scope.add(first.back());
+            }
+            mesh_writer::write(tmpdir() + "/earlier_cells.vtk", tmpdir() + "/earlier_faces.vtk", first);
+        } catch (const std::exception&) {
+        }
+        for (size_t i = 0; i < cells.size(); i++) cells[i]->get_cell_type()->global_type_id_ = k.cells[i].type_id;
+        (void)real;
+    }
     // expected content: what the cells look like after the documented compaction
     std::vector<TriMesh> expect;
     try {
